@@ -824,8 +824,14 @@ class WorkflowConductor(object):
         }
 
         # If the task has retry spec defined, then setup the retry in the task state entry.
+        # If there is a failure while evaluating the retry count or delay, fail the workflow.
         if self.graph.task_has_retry(task_id):
-            self.setup_retry_in_task_state(task_state_entry, in_ctx_idxs)
+            try:
+                self.setup_retry_in_task_state(task_state_entry, in_ctx_idxs)
+            except Exception as e:
+                task_state_entry.pop("retry", None)
+                self.log_error(e, task_id=task_id, route=route)
+                self.request_workflow_status(statuses.FAILED)
 
         # Append the task state entry to the list of task execution.
         task_state_entry_id = constants.TASK_STATE_ROUTE_FORMAT % (task_id, str(route))
